@@ -332,6 +332,10 @@ def expand_expr(fs, e, keep=()):
         return n
       if isinstance(x, ast.Call) and isinstance(x.func, ast.Attribute) and x.func.attr in _MUT:
         return n
+      # a freshly built mutable container is an object with an identity (it may have been filled since): keep the name
+      if isinstance(x, (ast.List, ast.Dict, ast.Set, ast.ListComp, ast.DictComp, ast.SetComp)) or \
+          (isinstance(x, ast.Call) and isinstance(x.func, ast.Name) and x.func.id in ('list', 'dict', 'set', 'sorted', 'defaultdict', 'deque')):
+        return n
       changed[0] = True
       return x
   t = ast.parse(u(e), mode='eval').body
